@@ -59,6 +59,8 @@ STEPS = [
     ("cat", "c2", {"from_category": "depth", "max_value": "hi", "default_value": "d"}), ("cat", "c2", {"from_category": "depth", "quantity_type": "length"}),
     ("cat", "c2", {"from_category": "nosuchcat"}), ("cat", "c2", {"from_category": "depth", "valid_units": ["s"]}), ("cat", "depth", {"from_category": "length", "override": True}),
     ("cat", "c1", {"quantity_type": "time", "valid_units": ["s"], "min_value": "lo", "default_value": "d"}),
+    ("cat", "c2", {"from_category": "depth", "max_value": "hi"}), ("cat", "c2", {"from_category": "depth", "min_value": "lo", "is_min_exclusive": True}),
+    ("base", "length", "centimeters", "km"), ("base", "time", "seconds", "ss"), ("unit", "length", "meters", "mm", 1000),
 ]
 POSC_STEPS = [
     ("cat", "c1", {"quantity_type": "volume flow rate", "default_unit": "1000ft3/d"}), ("cat", "c1", {"quantity_type": "volume flow rate", "valid_units": ["M(ft3)/d", "m3/s"]}),
@@ -310,6 +312,13 @@ def run(cfg, V):
     log = []
     for si in cfg["steps"]:
         step = steps[si]
+        if step[0] == "cat":
+            # history: the (category, unit) pairs are probed BEFORE the registration (a refusal may get memoised)
+            for u in ("m", "cm", "s", "km"):
+                try:
+                    db.CheckCategoryUnit(step[1], u)
+                except Exception:  # noqa
+                    pass
         snap0 = snap_registry(db)
         try:
             do_step(db, step, V)
